@@ -389,5 +389,122 @@ def replay_tapes(case):
     check_sampled(Ctx(PROPERTY, "tapes", "quick", 0, 0, 1), tuple(case))
 
 
+# ---------------------------------------------------------------- ABOR while the server is blocked by TCP back pressure
+BIGFILE = bytes(range(256)) * 1300  # 332800 bytes: more than the 64 KiB write buffer
+
+
+async def _backpressure(loop, kind, read_first, followup, wait_before_abor):
+    server = aioftp.Server(path_io_factory=aioftp.MemoryPathIO, block_size=8192, wait_future_timeout=3)
+    await server.start(HOST, PORT)
+    tree = {"/": DIR, "/big": BIGFILE, "/g": OLD, "/d": DIR}
+    for i in range(2500):
+        tree["/d/entry-with-a-rather-long-name-%05d" % i] = b""
+    harness.mem_populate(server, tree)
+    raw = Raw(HOST, PORT, patience=9.0)
+    await raw.connect()
+    await raw.cmd("USER anonymous")
+    await raw.cmd("EPSV")
+    dr, dw = await raw.open_data()
+    await asyncio.sleep(0.1)
+    if read_first == 0:
+        dw.transport.pause_reading()
+    code, _ = await raw.cmd({"RETR": "RETR /big", "LIST": "LIST /d", "MLSD": "MLSD /d"}[kind])
+    got = bytearray()
+    while len(got) < read_first:
+        chunk = await dr.read(min(8192, read_first - len(got)))
+        if not chunk:
+            break
+        got.extend(chunk)
+    dw.transport.pause_reading()  # the peer stops reading: the server's write buffer fills, drain() blocks
+    await asyncio.sleep(wait_before_abor)
+    sdata = [t for t in loop.net.all_transports if t.side == "s" and t.listener_port != PORT][-1]
+    blocked = sdata.paused_at is not None
+    raw.send("ABOR")
+    replies = [code]
+    while True:
+        c_, _l = await raw.reply(9.0)
+        if c_ in ("SILENCE", "EOF", "GARBAGE"):
+            end = c_
+            break
+        replies.append(c_)
+    closed_by_server = sdata._closing
+    # the peer now gives up its side (a real client does that after the 226)
+    dw.transport.resume_reading()
+    rest, eof = await read_all(dr, 30)
+    dw.close()
+    fu = None
+    if end != "EOF":
+        if followup == "PWD":
+            fu = [(await raw.cmd("PWD"))[0]]
+        else:
+            c1, _ = await raw.cmd("EPSV")
+            fu = [c1]
+            if c1 == "229":
+                r2, w2 = await raw.open_data()
+                await asyncio.sleep(0.1)
+                c2, _ = await raw.cmd("RETR /g")
+                fu.append(c2)
+                if c2 == "150":
+                    buf, eof2 = await read_all(r2, 30)
+                    fu.append(("data_ok", buf == OLD and eof2))
+                    w2.close()
+                    fu.append((await raw.reply())[0])
+    raw.close()
+    await asyncio.wait_for(server.close(), 1000)
+    return dict(replies=replies, end=end, blocked=blocked, closed_by_server=closed_by_server, eof_after=eof, followup=fu,
+                received=len(got) + len(rest))
+
+
+def backpressure_cases(tier):
+    out = []
+    for kind in ("RETR", "LIST", "MLSD"):
+        for read_first in (0, 8192, 100000):
+            for fu in ("PWD", "RETR"):
+                for w in ((0.5,) if tier == "quick" else (0.5, 0.0, 2.0)):
+                    out.append((kind, read_first, fu, w))
+    return out
+
+
+def judge_backpressure(case, out):
+    kind, read_first, fu, w = case
+    detail = dict(kind=kind, read_first=read_first, followup_kind=fu, **{k: v for k, v in out.items()})
+
+    def bad(sym):
+        raise Violation(f"C14/backpressure/{kind}/{sym}", detail)
+
+    if out["end"] == "EOF":
+        bad("session_closed")
+    r = tuple(out["replies"])
+    D = done_code(kind)
+    if r not in {("150", "426", "226"), ("150", D, "226")}:
+        if len(r) < 3:
+            bad("abor_unanswered")
+        bad("reply_sequence_" + "+".join(r))
+    if not out["closed_by_server"]:
+        bad("data_connection_not_closed_by_server")
+    if out["eof_after"] is False:
+        bad("no_eof_on_data_connection")
+    ok = {"PWD": ["257"], "RETR": ["229", "150", ("data_ok", True), "226"]}[fu]
+    if out["followup"] != ok:
+        bad("followup_" + fu + "_misbehaves")
+
+
+def part_backpressure(ctx):
+    for case in backpressure_cases(ctx.tier)[ctx.shard::ctx.nshards]:
+        out = simnet.run(lambda loop: _backpressure(loop, *case))
+        ctx.count(case, out["blocked"], sample=dict(kind=case[0], bytes_read_before_the_peer_stops=case[1], followup=case[2],
+                                                   server_blocked_in_drain=out["blocked"], replies=out["replies"], bytes_received=out["received"]),
+                  classes=["kind_" + case[0], "blocked" if out["blocked"] else "not_blocked", "replies_" + "+".join(out["replies"])])
+        try:
+            judge_backpressure(case, out)
+        except Violation as v:
+            ctx.fail(v.sig, dict(kind="backpressure", case=list(case)), v.detail)
+
+
+def replay_backpressure(case):
+    c = tuple(case["case"])
+    judge_backpressure(c, simnet.run(lambda loop: _backpressure(loop, *c)))
+
+
 def plan(tier):
-    return [("grid", 16), ("sweep", 8), ("tapes", 8)]
+    return [("grid", 16), ("sweep", 8), ("tapes", 8), ("backpressure", 6)]
